@@ -88,6 +88,11 @@ def run(ck):
     # executed units) - the buffer discipline of process, as decided for C07
     import c07
     c07.rule_K(ck, lib, "C04-K")
+    # a response is written only for a query bound to a query handler: execute picks the slot by the query flag and refuses
+    # an empty slot (the rule of C01, necessary here as well)
+    import c01
+    with ck.under("C01-", "C04-C01"):
+        c01.rule_X(ck, lib)
     if ck.tier == "thorough" and not ck.cfg_rerun:
         std = ctx.lib(ck, "std")
         if std is not None:
